@@ -18,6 +18,7 @@ import (
 	"time"
 
 	"github.com/gobwas/ws"
+	"github.com/gobwas/ws/wsutil"
 )
 
 // ---------------------------------------------------------------------------
@@ -30,20 +31,22 @@ import (
 //	peer / NetDial events  ≡ 0     context deadline ≡ 3
 //	dial timeout           ≡ 5     timed cancel     ≡ 7
 type scenario struct {
-	Ctx       string     `json:"ctx"` // background | todo | cancel | value | custom | deadline
-	Deadline  int        `json:"ctx_deadline_ms,omitempty"`
-	Timeout   int        `json:"timeout_ms,omitempty"` // Dialer.Timeout, 0 = none
-	TimeoutNs int64      `json:"timeout_ns,omitempty"` // when non-zero it is Dialer.Timeout instead: a budget that has run out (negative) or 1 ns
-	DialDelay int        `json:"netdial_delay_ms,omitempty"`
-	DialFail  bool       `json:"netdial_fails,omitempty"`  // NetDial reports "connection refused" after its delay
-	Scheme    string     `json:"scheme,omitempty"`         // "" = ws/wss as the conn chain needs | WS (upper case) | http | https | wws | path (no scheme) | bad (unparseable)
-	Entry     string     `json:"entry,omitempty"`          // "" = Dialer.Dial on a value | package = the dialer is assigned to ws.DefaultDialer and ws.Dial is called
-	Wrap      string     `json:"wrap,omitempty"`           // "" | tlsclient (wss + pass-through TLSClient) | wrapconn | both | tls-default (wss, crypto/tls client)
-	TLSNilCfg bool       `json:"tls_nil_config,omitempty"` // tls-default: Dialer.TLSConfig nil instead of {InsecureSkipVerify: true}
-	RBuf      int        `json:"rbuf,omitempty"`
-	WBuf      int        `json:"wbuf,omitempty"`
-	Peer      peerScript `json:"peer"`
-	Plan      plan       `json:"plan"`
+	Ctx            string     `json:"ctx"` // background | todo | cancel | value | custom | deadline
+	Deadline       int        `json:"ctx_deadline_ms,omitempty"`
+	Timeout        int        `json:"timeout_ms,omitempty"` // Dialer.Timeout, 0 = none
+	TimeoutNs      int64      `json:"timeout_ns,omitempty"` // when non-zero it is Dialer.Timeout instead: a budget that has run out (negative) or 1 ns
+	DialDelay      int        `json:"netdial_delay_ms,omitempty"`
+	DialFail       bool       `json:"netdial_fails,omitempty"`       // NetDial reports "connection refused" after its delay
+	Scheme         string     `json:"scheme,omitempty"`              // "" = ws/wss as the conn chain needs | WS (upper case) | http | https | wws | path (no scheme) | bad (unparseable)
+	Debug          string     `json:"debug_callbacks,omitempty"`     // entry debug: which of OnRequest/OnResponse are set: both | req | resp | none
+	DialIgnoresCtx bool       `json:"netdial_ignores_ctx,omitempty"` // NetDial takes its full delay and hands out the conn (or its error) even when its context is done by then
+	Entry          string     `json:"entry,omitempty"`               // "" = Dialer.Dial on a value | package = the dialer is assigned to ws.DefaultDialer and ws.Dial is called | debug = wsutil.DebugDialer{Dialer: d}.Dial
+	Wrap           string     `json:"wrap,omitempty"`                // "" | tlsclient (wss + pass-through TLSClient) | wrapconn | both | tls-default (wss, crypto/tls client)
+	TLSNilCfg      bool       `json:"tls_nil_config,omitempty"`      // tls-default: Dialer.TLSConfig nil instead of {InsecureSkipVerify: true}
+	RBuf           int        `json:"rbuf,omitempty"`
+	WBuf           int        `json:"wbuf,omitempty"`
+	Peer           peerScript `json:"peer"`
+	Plan           plan       `json:"plan"`
 }
 
 // plan says when the harness ends the context by hand.
@@ -111,6 +114,10 @@ type outcome struct {
 	Returned       bool
 	Err            error
 	ConnNil        bool
+	NetDialDone    time.Duration // virtual time at which the NetDial stub returned
+	DoneAtObtain   bool          // NetDial handed out the conn although its context was already done
+	DebugReq       int
+	DebugResp      int
 	NetDials       int  // calls of the Dialer.NetDial stub
 	NotTop         bool // success, but the returned conn is not the outermost conn of the chain
 	BrNonNil       bool
@@ -217,6 +224,7 @@ func bubble(sc *scenario, out *outcome) {
 		mu.Unlock()
 		cancel()
 	}
+	forceAtFirstIO := false
 	conn.hook = func(io int, before bool) {
 		switch pl.Kind {
 		case "io":
@@ -231,6 +239,11 @@ func bubble(sc *scenario, out *outcome) {
 				synctest.Wait()
 			}
 		}
+		if forceAtFirstIO && io == 0 && before && pl.Kind != "dial-return" && !(pl.Kind == "io" && pl.IO == 0 && pl.Before) {
+			// the conn was obtained with its context already done: let the
+			// watcher act before the handshake I/O goes on (deterministic)
+			synctest.Wait()
+		}
 	}
 
 	d := ws.Dialer{
@@ -239,6 +252,24 @@ func bubble(sc *scenario, out *outcome) {
 		WriteBufferSize: sc.WBuf,
 		NetDial: func(dctx context.Context, network, addr string) (net.Conn, error) {
 			out.NetDials++
+			defer func() { out.NetDialDone = time.Since(start) }()
+			if sc.DialIgnoresCtx {
+				if sc.DialDelay > 0 {
+					time.Sleep(ms(sc.DialDelay))
+				}
+				if sc.DialFail {
+					return nil, errRefused
+				}
+				conn.established()
+				out.ConnObtained = true
+				out.ObtainedAt = time.Since(start)
+				forceAtFirstIO = dctx.Err() != nil
+				out.DoneAtObtain = forceAtFirstIO
+				if pl.Kind == "dial-return" {
+					doCancel()
+				}
+				return conn, nil
+			}
 			if sc.DialDelay > 0 {
 				tm := time.NewTimer(ms(sc.DialDelay))
 				select {
@@ -333,6 +364,15 @@ func bubble(sc *scenario, out *outcome) {
 			ws.DefaultDialer = d
 			c, br, _, err = ws.Dial(ctx, url)
 		}()
+	} else if sc.Entry == "debug" {
+		dd := wsutil.DebugDialer{Dialer: d}
+		if sc.Debug == "both" || sc.Debug == "req" {
+			dd.OnRequest = func(p []byte) { out.DebugReq++ }
+		}
+		if sc.Debug == "both" || sc.Debug == "resp" {
+			dd.OnResponse = func(p []byte) { out.DebugResp++ }
+		}
+		c, br, _, err = dd.Dial(ctx, url)
 	} else {
 		c, br, _, err = d.Dial(ctx, url)
 	}
@@ -414,6 +454,13 @@ type verdict struct {
 	NonTriv   bool
 }
 
+func maxZero(d time.Duration) time.Duration {
+	if d < 0 {
+		return 0
+	}
+	return d
+}
+
 func isNetTimeout(err error) bool {
 	var ne net.Error
 	return errors.As(err, &ne) && ne.Timeout()
@@ -474,7 +521,9 @@ func judge(sc *scenario, o *outcome) (v verdict) {
 			note(ms(pl.At), true)
 			limit(ms(pl.At), "timed-cancel")
 		case "io", "dial-return":
-			if o.CancelAt >= 0 {
+			// (an I/O index that is only reached in the watchdog's rescue is
+			// no cancellation of this case)
+			if o.CancelAt >= 0 && o.CancelAt < watchdogAfter {
 				note(o.CancelAt, false)
 				limit(o.CancelAt, "cancel")
 			}
@@ -494,6 +543,14 @@ func judge(sc *scenario, o *outcome) (v verdict) {
 		v.Violation = fmt.Sprintf("Dial keeps retrying I/O after the deadline passed or the conn was closed (%d calls) instead of returning; once the conn reported a fatal error Dial returned err=%v at %v (due at %v: %v), conn closed: %v",
 			o.AtReturn.Runaway, o.Err, o.TR, v.Bound, v.HasBound, o.AtReturn.Closed)
 		return
+	}
+	// the dial timeout is the earliest limit (it elapses before the caller's context ends)
+	timeoutFirst := (v.HasBound && strings.HasPrefix(v.BoundKind, "timeout")) || sc.timeout() < 0
+	origBound := v.Bound
+	if sc.DialIgnoresCtx && v.HasBound && o.NetDials > 0 && v.Bound < o.NetDialDone {
+		// Dial cannot return before a NetDial that does not look at its context
+		v.Bound = o.NetDialDone
+		v.BoundKind += "+netdial-ignores-ctx"
 	}
 	if !o.Returned {
 		v.Outcome = "never-returned"
@@ -533,6 +590,10 @@ func judge(sc *scenario, o *outcome) (v verdict) {
 		v.Open = "unbounded-wait" // no context end, no timeout: waiting on the peer is legal
 	}
 
+	if v.HasBound && strings.HasPrefix(v.BoundKind, "timeout") && sc.timeout() > 0 && o.TR >= v.Bound && o.Err == nil {
+		v.Violation = fmt.Sprintf("the dial timeout (%v) fired while Dial was blocked, yet Dial returned a nil error at %v", sc.timeout(), o.TR)
+		return
+	}
 	if sc.timeout() < 0 && o.Err == nil {
 		v.Violation = fmt.Sprintf("Dialer.Timeout = %v has elapsed before Dial was called, yet Dial returned a nil error", sc.timeout())
 		return
@@ -580,6 +641,24 @@ func judge(sc *scenario, o *outcome) (v verdict) {
 			v.Open = "url-refused"
 		}
 	}
+	if sc.DialIgnoresCtx && ctxEnds && (!o.ConnObtained || (timeoutFirst && o.NetDialDone >= origBound)) {
+		// NetDial's own error stands; and when both the dial timeout and the
+		// context had ended while NetDial ignored them, either end may be
+		// reported (the timeout was first)
+		ctxEnds = false
+		if v.Open == "" {
+			v.Open = "netdial-ignored-its-context"
+		}
+	}
+	if ctxEnds && !ctxEndTimed && sc.timeout() != 0 && o.CancelAt >= maxZero(sc.timeout()) && (pl.Kind == "io" || pl.Kind == "dial-return") {
+		// the dial timeout had fired before the harness cancelled (at an I/O
+		// call made on the already expired conn): the timeout's error stands
+		ctxEnds = false
+		if v.Open == "" {
+			v.Open = "cancelled-after-the-timeout-fired"
+		}
+	}
+	lastInstant := false
 	if ctxEnds && !o.Rescued {
 		switch {
 		case pl.Kind == "pre":
@@ -594,10 +673,10 @@ func judge(sc *scenario, o *outcome) (v verdict) {
 		case pl.Kind == "io" && pl.Forced:
 			// after operation i took effect: the context ended before the
 			// handshake I/O finished iff more I/O followed
-			v.MustCtx = ioAfter(o.Log, o.CancelSeq)
-			if !v.MustCtx {
-				v.Open = "ended-inside-last-io/forced"
-			}
+			// ... or the watcher has acted before that last call returned:
+			// the forced order "poisoned, then finished"
+			v.MustCtx = true
+			lastInstant = !ioAfter(o.Log, o.CancelSeq)
 		case pl.Kind == "io":
 			v.Open = "ended-inside-last-io/unforced"
 		}
@@ -606,13 +685,23 @@ func judge(sc *scenario, o *outcome) (v verdict) {
 		// With slow Set*Deadline calls the watcher may still be applying the
 		// poison while the handshake reads on; a response that is wrong in
 		// itself is then reported as such ("the error is that error").
-		ownFailure := sc.Peer.SlowDL && o.Err != nil && !isNetTimeout(o.Err) &&
+		// wsutil.DebugDialer with OnResponse reads the whole response head
+		// ahead of ws.Dialer: bytes that make Dialer fail by themselves (a
+		// 400 status line) may already be there while the prefetch is still
+		// blocked, and are handed over when the poison ends it.
+		prefetch := sc.Entry == "debug" && (sc.Debug == "both" || sc.Debug == "resp")
+		ownFailure := (sc.Peer.SlowDL || lastInstant || prefetch) && o.Err != nil && !isNetTimeout(o.Err) &&
 			(sc.Peer.Resp != "valid" || sc.Peer.Deliver >= 0 || sc.Peer.EOF) && !errors.Is(o.Err, errCause)
 		switch {
 		case o.CtxErrAtReturn == nil:
 			v.Infra = "harness inconsistency: the context should have ended before Dial returned but ctx.Err() was nil"
 		case ownFailure && !errors.Is(o.Err, o.CtxErrAtReturn):
 			v.Open = "handshake-failed-by-itself-while-poison-in-flight"
+			if lastInstant && !sc.Peer.SlowDL {
+				v.Open = "handshake-failed-by-itself-in-its-last-io"
+			} else if prefetch && !sc.Peer.SlowDL {
+				v.Open = "handshake-failed-by-itself-on-prefetched-bytes"
+			}
 		case o.Err == nil:
 			v.Violation = fmt.Sprintf("the context ended (%v) before the handshake I/O finished, yet Dial returned a nil error", o.CtxErrAtReturn)
 		case errors.Is(o.Err, errCause):
